@@ -15,7 +15,9 @@ package transport
 
 import (
 	"crypto/rand"
+	"encoding/binary"
 	"fmt"
+	"math/bits"
 	"net"
 	"reflect"
 	"sort"
@@ -587,6 +589,7 @@ type c19CookieCase struct {
 	DelayS int  `json:"delayS"`          // virtual seconds between the ServerHello and the presentation (the cookie key rotates every 120 s)
 	Forge  bool `json:"forge,omitempty"` // harness-driven base: build even an unaltered acknowledgement with the forging helper (self-test of the helper)
 	Fam    int  `json:"fam,omitempty"`   // address family of every address in the case: 0 IPv4-mapped 16-byte, 1 IPv4 4-byte, 2 IPv6
+	AgeS   int  `json:"ageS,omitempty"`  // virtual seconds the server has been serving when the base exchange is made (the cookie is minted in the server's (AgeS/120)-th key period)
 }
 
 var c19FromAddrs = []*net.UDPAddr{vCliAddr, c19AddrSameIP, c19AddrSamePort, vEvilAddr}
@@ -610,7 +613,29 @@ type c19CookieOut struct {
 	grewField    string
 	grewFrom     int
 	grewTo       int
-	rotated      bool
+	rotated      bool // white-box: the cookie key differs from the one in use when the cookie was minted
+	due          bool // by the clock: a rotation instant (every c19RotationPeriod since Serve started) lies between minting and presentation
+	dueClear     bool // ... and neither minting nor presentation is within a second of a rotation instant
+}
+
+// c19RotationPeriod: "K_r is a key that is rotated every N minutes" (handshake_spec.md, Server Hello Construction); N = 2 in
+// transport/server.go (Serve). The harness has always stated this period in its assumptions; it now also judges by it.
+const c19RotationPeriod = 2 * time.Minute
+
+// c19RotationDue reports whether a rotation instant k*period (k >= 1, counted from the start of Serve) lies between the
+// interval in which the cookie was minted and the presentation; clear is false when one of them is within a second of
+// such an instant (then only the white-box comparison of the key is used).
+func c19RotationDue(mintFrom, mintTo, present time.Duration) (due, clear bool) {
+	const margin = time.Second
+	near := func(d time.Duration) bool {
+		if d < c19RotationPeriod-margin {
+			return false // the start of Serve is not a rotation
+		}
+		r := d % c19RotationPeriod
+		return r < margin || r > c19RotationPeriod-margin
+	}
+	clear = !near(mintFrom) && !near(mintTo) && !near(present) && mintFrom/c19RotationPeriod == mintTo/c19RotationPeriod
+	return present/c19RotationPeriod > mintTo/c19RotationPeriod, clear
 }
 
 func c19Cookie(c c19CookieCase) (out c19CookieOut) {
@@ -660,7 +685,10 @@ func c19Cookie(c c19CookieCase) (out c19CookieOut) {
 		}
 		return nil
 	}
+	served := time.Now() // Serve starts its rotation ticker at this virtual instant (nothing has slept yet)
+	time.Sleep(time.Duration(c.AgeS) * time.Second)
 	keyAt := c19CookieKey(env.Srv)
+	mintFrom := time.Since(served)
 	var ack []byte
 	if c.Real {
 		base := realAck(vCliAddr, false)
@@ -741,8 +769,10 @@ func c19Cookie(c c19CookieCase) (out c19CookieOut) {
 	if c.Cookie == 1 && c.Real {
 		ack[c19AckOffCookie+c.Off%PQCookieLen] ^= byte(c.Mask)
 	}
+	mintTo := time.Since(served)
 	time.Sleep(time.Duration(c.DelayS) * time.Second)
 	out.rotated = c19CookieKey(env.Srv) != keyAt
+	out.due, out.dueClear = c19RotationDue(mintFrom, mintTo, time.Since(served))
 	src := c19FromAddrs[c.From]
 	before := c19Footprint(env.Srv)
 	entryBefore := env.Srv.fetchHandshakeState(src)
@@ -762,7 +792,7 @@ func c19Cookie(c c19CookieCase) (out c19CookieOut) {
 	return
 }
 
-func c19CookieDiffers(c c19CookieCase, rotated bool) []string {
+func c19CookieDiffers(c c19CookieCase, rotated, overdue bool) []string {
 	var d []string
 	switch c.From {
 	case 1:
@@ -789,15 +819,23 @@ func c19CookieDiffers(c c19CookieCase, rotated bool) []string {
 	case 4:
 		d = append(d, "cookie-of-other-address")
 	}
-	if rotated {
+	switch {
+	case rotated:
 		d = append(d, "rotated-key")
+	case overdue:
+		// the key in use when the cookie was minted is no longer the current key by the rotation schedule, although the
+		// server still holds it
+		d = append(d, "rotation-overdue")
 	}
 	return d
 }
 
 func c19CookieValid(c c19CookieCase) bool {
-	if c.From < 0 || c.From >= len(c19FromAddrs) || c.Key < 0 || c.Key > 2 || c.Cookie < 0 || c.Cookie > 4 || c.DelayS < 0 {
+	if c.From < 0 || c.From >= len(c19FromAddrs) || c.Key < 0 || c.Key > 2 || c.Cookie < 0 || c.Cookie > 4 || c.DelayS < 0 || c.AgeS < 0 {
 		return false
+	}
+	if r := c.AgeS % 120; c.AgeS != 0 && (r < 2 || r > 117) {
+		return false // minting at a rotation instant: which key sealed the cookie is a race (the start of Serve is no rotation)
 	}
 	if c.Real && (c.Key == 2 || c.Cookie == 4) {
 		return false
@@ -825,14 +863,19 @@ func c19CookieRun(t *testing.T) func(c c19CookieCase, v *vlib.Verdict) {
 			t.Errorf("VERIF-MACHINERY C19 cookie: %s (case %+v)", out.mach, c)
 			return
 		}
-		differs := c19CookieDiffers(c, out.rotated)
+		overdue := out.due && out.dueClear && !out.rotated
+		differs := c19CookieDiffers(c, out.rotated, overdue)
 		v.Label("base:" + map[bool]string{true: "real-client(byte-replacement)", false: "harness-driven(consistent-mac)"}[c.Real])
 		v.Label("from:" + []string{"A", "same-ip-other-port", "other-ip-same-port", "other-ip-other-port"}[c.From])
 		v.Label("key:" + []string{"K", "replaced-field", "other-key-consistent-mac"}[c.Key])
 		v.Label("cookie:" + []string{"intact", "byte-altered", "of-other-address-and-key", "of-other-key-same-address", "of-same-key-other-address"}[c.Cookie])
 		v.Label("presented:" + map[bool]string{true: "after-rotation", false: "before-rotation"}[out.rotated])
-		if c.DelayS >= 121 && !out.rotated {
-			v.Label("cookie-key-unchanged-after-more-than-120s(not-judged)")
+		v.Labelf("minted-in-key-period:%s", []string{"0", "1", "2", "3+"}[min(c.AgeS/120, 3)])
+		switch {
+		case overdue:
+			v.Label("rotation-overdue(key-unchanged-although-a-rotation-instant-passed)")
+		case out.due != out.rotated:
+			v.Label("rotation-schedule-and-key-comparison-disagree-near-a-rotation-instant(key-comparison-used)")
 		}
 		accepted := out.serverAuth || out.entryCreated || out.grewField == "handshakes" || out.grewField == "sessions"
 		if len(differs) == 0 {
@@ -840,7 +883,7 @@ func c19CookieRun(t *testing.T) func(c c19CookieCase, v *vlib.Verdict) {
 			switch {
 			case out.serverAuth && out.entry:
 				v.Label("matching:accepted")
-			case c.DelayS == 0:
+			case c.DelayS == 0 && (c.AgeS == 0 || out.dueClear):
 				t.Errorf("VERIF-MACHINERY C19:valid-cookie-rejected: the unaltered acknowledgement from A with K and the fresh cookie was not accepted (ServerAuth %v, handshake entry %v); case %+v", out.serverAuth, out.entry, c)
 			default:
 				v.Label("matching:rejected-without-rotation(not-judged)")
@@ -893,6 +936,18 @@ func TestVerifC19CookieSweep(t *testing.T) {
 							return
 						}
 					}
+					// the server has been serving for a while: cookies minted in its 2nd, 3rd and 4th key period, presented one
+					// (and, for the presentations from A with K, two) rotation instants later, or at once
+					for _, age := range []int{130, 250, 370} {
+						for _, d := range []int{125, 0, 60, 245} {
+							if d != 125 && (from != 0 || key != 0) {
+								continue
+							}
+							if !emit(c19CookieCase{Real: real, From: from, Key: key, Cookie: cookie, DelayS: d, AgeS: age}) {
+								return
+							}
+						}
+					}
 					// the same matrix with 4-byte IPv4 and with IPv6 addresses (the cookie is bound to the raw address bytes)
 					for fam := 1; fam <= 2; fam++ {
 						if !emit(c19CookieCase{Real: real, From: from, Key: key, Cookie: cookie, Fam: fam}) {
@@ -925,7 +980,7 @@ func TestVerifC19CookieSweep(t *testing.T) {
 			}
 		}
 	}
-	rec.Extra("enumerated", "base {real client, harness-driven} x source {A, other port, other IP, both} x key {K, field replaced, other key with consistent MAC} x cookie {intact, of other exchange x3} x (delay {0,45,110 | 125,170,245,299 s} with IPv4-mapped addresses + delay 0 with 4-byte IPv4 and with IPv6 addresses); every cookie byte x masks (quick {0x01,0x80}; thorough 8 single bits + 0xff)")
+	rec.Extra("enumerated", "base {real client, harness-driven} x source {A, other port, other IP, both} x key {K, field replaced, other key with consistent MAC} x cookie {intact, of other exchange x3} x (delay {0,45,110 | 125,170,245,299 s} on a server that has just started + server age {130,250,370 s} x delay 125 s (from A with K also 0, 60, 245 s), IPv4-mapped addresses + delay 0 with 4-byte IPv4 and with IPv6 addresses); every cookie byte x masks (quick {0x01,0x80}; thorough 8 single bits + 0xff)")
 }
 
 func TestVerifC19CookieRandom(t *testing.T) {
@@ -953,6 +1008,13 @@ func TestVerifC19CookieRandom(t *testing.T) {
 		default:
 			c.DelayS = rapid.IntRange(121, 300).Draw(t, "delayAfter")
 		}
+		// age of the server at the base exchange: just started, or somewhere inside its 1st..6th key period
+		if rapid.IntRange(0, 2).Draw(t, "aged") > 0 {
+			c.AgeS = 120*rapid.SampledFrom([]int{0, 1, 1, 2, 2, 3, 4, 5}).Draw(t, "agePeriod") + rapid.IntRange(2, 117).Draw(t, "ageInPeriod")
+			if r := (c.AgeS + c.DelayS) % 120; c.DelayS > 0 && (r < 2 || r > 117) {
+				c.DelayS += 5 // keep the presentation clear of a rotation instant
+			}
+		}
 		return c
 	}})
 }
@@ -968,7 +1030,7 @@ type c19HiddenCase struct {
 	Certs   int    `json:"certs"`  // certificates of the hidden server: 1 = ServerConfig(true); 2, 3 = GetCertificate/GetCertList closures
 	Target  int    `json:"target"` // certificate whose KEM key the case's honest request uses
 	Live    bool   `json:"live"`   // a hidden session (client vCli2Addr) is established first and stays open during the probe
-	Class   string `json:"class"`  // honest | delayed | replayed-late | future | wrong-kem | altered | junk | discoverable | own-cookie-ack | session-unknown | session-live
+	Class   string `json:"class"`  // honest | delayed | replayed-late | future | stamped | wrong-kem | altered | junk | discoverable | own-cookie-ack | session-unknown | session-live
 	Src     int    `json:"src"`    // source of injected datagrams: 0 an address the server never saw, 1 the live client's address, 2 the requesting client's address
 	N       int    `json:"n"`      // junk / session classes: number of datagrams
 	Type    int    `json:"type"`   // junk / session classes: first byte (-1: from the tape); discoverable: message index (-1: all five in order)
@@ -976,8 +1038,14 @@ type c19HiddenCase struct {
 	Kind    int    `json:"kind"`   // altered: 0 xor, 1 truncate, 2 extend by Len bytes; junk: 1 = hidden-request-shaped (version and length field fit); session-live: 0 junk body, 1 replay of an authentic datagram, 2 altered authentic datagram
 	Off     int    `json:"off"`
 	Mask    int    `json:"mask"`
-	DelayMs int64  `json:"delayMs"` // delayed / replayed-late: hold time; future: how far the requesting client's clock is ahead
+	DelayMs int64  `json:"delayMs"` // delayed / replayed-late: hold time; future: how far the requesting client's clock is ahead; stamped: time between the presentation and its replay (0: no replay)
 	Seed    uint64 `json:"seed"`
+	// stamped: a correctly keyed and MACed request whose 8-byte time stamp field carries
+	// TsAbs + (the server's clock in seconds at the presentation, if TsNow) + TsDelta (arithmetic mod 2^64);
+	// Kind: 0 replay from the same address, 1 from another address
+	TsAbs   uint64 `json:"tsAbs,omitempty"`
+	TsNow   bool   `json:"tsNow,omitempty"`
+	TsDelta int64  `json:"tsDelta,omitempty"`
 }
 
 var c19DiscoverableNames = []string{"ClientHello", "ServerHello", "ClientAck", "ServerAuth", "ClientAuth"}
@@ -989,7 +1057,7 @@ func c19HiddenNormalize(c *c19HiddenCase) string {
 		switch c.Class {
 		case "wrong-kem", "altered":
 			hit = true
-		case "honest", "delayed", "replayed-late", "future":
+		case "honest", "delayed", "replayed-late", "future", "stamped":
 			hit = c.Target > 0
 		case "junk":
 			hit = (c.Type < 0 || c.Type == int(MessageTypeClientRequestHidden)) && c.Len >= c19MinHiddenLen
@@ -1013,6 +1081,8 @@ func c19HiddenValid(c c19HiddenCase) bool {
 	switch c.Class {
 	case "honest", "delayed", "replayed-late", "future", "wrong-kem", "own-cookie-ack":
 		return true
+	case "stamped":
+		return c.Kind >= 0 && c.Kind <= 1
 	case "altered":
 		return c.Kind >= 0 && c.Kind <= 2 && (c.Kind != 0 || c.Mask&0xff != 0) && (c.Kind != 2 || c.Len > 0)
 	case "junk", "session-unknown":
@@ -1079,6 +1149,116 @@ func c19MakeRequest(t *testing.T, aheadMs int64, cc ClientConfig) []byte {
 		<-done
 	})
 	return req
+}
+
+// c19StampedRequest writes a hidden request for the client configuration cc the way Client.clientHandshakeLocked,
+// beginPQHiddenHandshake and writePQClientRequestHidden do (same duplex operations on the same real primitives),
+// except that the time stamp field carries ts instead of time.Now().Unix(). The self-test presents one stamped with
+// the server's own clock and requires the real server to answer it, so a drift of this copy is a machinery failure.
+func c19StampedRequest(cc ClientConfig, ts uint64) ([]byte, error) {
+	hs := new(HandshakeState)
+	hs.duplex.InitializeEmpty()
+	hs.dh = new(dhState)
+	hs.dh.ephemeral.Generate()
+	hs.dh.static = cc.Exchanger
+	hs.kem = new(kemState)
+	hs.kem.ephemeral = *c19NewKEM()
+	if cc.Leaf == nil || cc.ServerKEMKey == nil {
+		return nil, fmt.Errorf("client configuration without leaf certificate or server KEM key")
+	}
+	leaf, err := cc.Leaf.Marshal()
+	if err != nil {
+		return nil, err
+	}
+	var inter []byte
+	if cc.Intermediate != nil {
+		if inter, err = cc.Intermediate.Marshal(); err != nil {
+			return nil, err
+		}
+	}
+	hs.duplex.Absorb([]byte(PostQuantumHiddenProtocolName))
+	hs.RekeyFromSqueeze(PostQuantumHiddenProtocolName)
+
+	encCertsLen := EncryptedCertificatesLength(leaf, inter)
+	out := make([]byte, HeaderLen+KemKeyLen+KemCtLen+encCertsLen+MacLen+TimestampLen+MacLen)
+	b := out
+	b[0], b[1], b[2], b[3] = byte(MessageTypeClientRequestHidden), Version, byte(encCertsLen>>8), byte(encCertsLen)
+	hs.duplex.Absorb(b[:HeaderLen])
+	b = b[HeaderLen:]
+	eph, err := hs.kem.ephemeral.Public.MarshalBinary()
+	if err != nil {
+		return nil, err
+	}
+	copy(b, eph)
+	hs.duplex.Absorb(b[:KemKeyLen])
+	b = b[KemKeyLen:]
+	ct, k, err := keys.Encapsulate(rand.Reader, cc.ServerKEMKey)
+	if err != nil || len(ct) != KemCtLen {
+		return nil, fmt.Errorf("encapsulation: %v (%d bytes)", err, len(ct))
+	}
+	copy(b, ct)
+	b = b[KemCtLen:]
+	hs.duplex.Absorb(k)
+	enc, err := EncryptCertificates(&hs.duplex, leaf, inter)
+	if err != nil || len(enc) != encCertsLen {
+		return nil, fmt.Errorf("certificates: %v (%d bytes, expected %d)", err, len(enc), encCertsLen)
+	}
+	copy(b, enc)
+	b = b[encCertsLen:]
+	hs.duplex.Squeeze(b[:MacLen])
+	b = b[MacLen:]
+	var stamp [TimestampLen]byte
+	binary.BigEndian.PutUint64(stamp[:], ts)
+	hs.duplex.Encrypt(b, stamp[:])
+	b = b[TimestampLen:]
+	hs.duplex.Squeeze(b[:MacLen])
+	return out, nil
+}
+
+// c19Freshness reads a time stamp against the server's clock (seconds) the way the "delayed" and "future" classes
+// already do: must-be-silent needs a full second beyond the documented window (HiddenModeTimestampExpiration) on either
+// side; a stamp that is ahead of the clock by less than that is not judged (clock-skew tolerance is not fixed by the
+// statement). The field is 64 bits wide and unsigned on the wire (binary.BigEndian.PutUint64 of a Unix time).
+func c19Freshness(ts uint64, now int64) string {
+	t, w := uint64(now), uint64(HiddenModeTimestampExpiration)
+	switch {
+	case ts > t && ts-t >= w+1:
+		return "future"
+	case ts > t:
+		return "ahead-inside-window-width"
+	case t-ts <= w:
+		return "fresh"
+	}
+	return "stale"
+}
+
+// c19StampName describes a stamp relative to the landmarks of the field (labels and messages only).
+func c19StampName(c c19HiddenCase) string {
+	var parts []string
+	switch {
+	case c.TsAbs == 0:
+	case c.TsAbs&(c.TsAbs-1) == 0:
+		parts = append(parts, fmt.Sprintf("2^%d", bits.TrailingZeros64(c.TsAbs)))
+	case c.TsAbs == ^uint64(0):
+		parts = append(parts, "2^64-1")
+	case (c.TsAbs+1)&c.TsAbs == 0:
+		parts = append(parts, fmt.Sprintf("2^%d-1", bits.TrailingZeros64(c.TsAbs+1)))
+	default:
+		parts = append(parts, "value")
+	}
+	if c.TsNow {
+		parts = append(parts, "now")
+	}
+	switch {
+	case c.TsDelta > 0 && c.TsDelta <= 8, c.TsDelta < 0 && c.TsDelta >= -8:
+		parts = append(parts, fmt.Sprintf("%+d", c.TsDelta))
+	case c.TsDelta != 0:
+		parts = append(parts, map[bool]string{true: "+delta", false: "-delta"}[c.TsDelta > 0])
+	}
+	if len(parts) == 0 {
+		return "0"
+	}
+	return strings.Join(parts, " ")
 }
 
 type c19HiddenJudge struct {
@@ -1290,6 +1470,71 @@ func c19Hidden(c c19HiddenCase, v *vlib.Verdict, future []byte) (mach string) {
 				return
 			}
 			v.Labelf("future-inside-window-width(not-judged):answered=%v", answered)
+		}
+
+	case "stamped":
+		// align to 100 ms past a whole second: the server's second does not change while it handles the datagram
+		time.Sleep(time.Until(time.Now().Truncate(time.Second).Add(1100 * time.Millisecond)))
+		now := time.Now().Unix()
+		ts := c.TsAbs + uint64(c.TsDelta)
+		if c.TsNow {
+			ts += uint64(now)
+		}
+		req, err := c19StampedRequest(c19HiddenClientConfig(c.Target, false), ts)
+		if err != nil {
+			return "stamped request: " + err.Error()
+		}
+		name := c19StampName(c)
+		present := func(from *net.UDPAddr, step string) bool {
+			now := time.Now().Unix()
+			env.Net.Inject(from, vSrvAddr, req)
+			c19Settle()
+			fr := c19Freshness(ts, now)
+			what := fmt.Sprintf("a correctly keyed and MACed request (%s) whose time stamp field is %#016x = %s, server clock %d (%#x), window %d s", step, ts, name, now, now, HiddenModeTimestampExpiration)
+			switch fr {
+			case "stale", "future":
+				v.NonTrivial = true
+				v.Labelf("stamped:%s:%s", fr, step)
+				return j.silent(fr+"-request:stamped:"+step, what)
+			}
+			answered, ok := j.atMostOneResponse("stamped-"+fr+":"+step, what, from)
+			if fr == "fresh" {
+				v.Labelf("stamped:fresh:%s:answered=%v", step, answered)
+			} else {
+				v.Labelf("stamped:%s(not-judged):%s:answered=%v", fr, step, answered)
+			}
+			return ok
+		}
+		switch {
+		case ts < 1<<31:
+			v.Label("stamp-field:below-2^31")
+		case ts < 1<<32:
+			v.Label("stamp-field:2^31..2^32")
+		case ts < 1<<63:
+			v.Label("stamp-field:2^32..2^63")
+		default:
+			v.Label("stamp-field:top-bit-set")
+		}
+		if c.TsNow && c.TsAbs != 0 {
+			v.Label("stamp-field:clock-plus-high-bits")
+		}
+		if !present(src, "first") {
+			return
+		}
+		if c.DelayMs > 0 {
+			time.Sleep(time.Duration(c.DelayMs) * time.Millisecond)
+			if got := j.watch.delta(); len(got) > 0 {
+				// whatever the server does about an answered request that nobody continues belongs to that request
+				v.Label("server-sent-something-while-waiting-for-the-replay(not-judged)")
+				v.Note = c19Describe(got)
+			}
+			from, where := src, "replay-same-address"
+			if c.Kind == 1 {
+				from, where = c19AddrSamePort, "replay-other-address"
+			}
+			if !present(from, where) {
+				return
+			}
 		}
 
 	case "wrong-kem":
@@ -1732,7 +1977,57 @@ func TestVerifC19HiddenSweep(t *testing.T) {
 			}
 		}
 	}
-	rec.Extra("enumerated", "honest requests per certificate; the five discoverable messages (each / all) x source x live session; acknowledgement under the server's own cookie key; junk: 17 first bytes x 20 lengths (+ hidden-request-shaped); session datagrams unknown/live id x 4 types x 11 lengths, replayed and altered authentic datagrams; wrong KEM key; valid request xor (quick: every 16th offset + all field edges, thorough: every offset) / truncated / extended; delayed and replayed-late at 12 delays from 0 to 1 h; future-stamped at 7 offsets up to 1 year")
+	// correctly keyed requests whose time stamp field carries a chosen value: landmarks of the 64-bit field, absolute and
+	// relative to the server's clock, and the window edges; each also replayed after the window from another address
+	type stamp struct {
+		abs   uint64
+		now   bool
+		delta int64
+	}
+	var stamps []stamp
+	for _, d := range []int64{0, -1, 1, -4, 4, -5, 5, -6, 6, -7, 7, -3600, 3600} {
+		stamps = append(stamps, stamp{0, true, d})
+	}
+	for _, a := range []uint64{0, 1, 1 << 31, 1 << 32, 1 << 62, 1<<63 - 1, 1 << 63, 1<<63 + 1, ^uint64(0), ^uint64(0) - 1, 1<<32 - 1, 1<<31 - 1} {
+		stamps = append(stamps, stamp{a, false, 0})
+	}
+	for _, b := range []uint{8, 16, 31, 32, 33, 48, 62, 63} {
+		// the clock with one higher bit added or taken away (mod 2^64): fresh only to a reader that drops or misreads that bit
+		for _, d := range []int64{-6, -5, -1, 0, 1, 6} {
+			if (b == 63 || b == 32 || b == 31) || d == 0 || d == -1 {
+				stamps = append(stamps, stamp{1 << b, true, d}, stamp{-(1 << b), true, d})
+			}
+		}
+	}
+	for _, st := range stamps {
+		for _, live := range both {
+			if live && !th && st.delta != 0 && st.delta != -1 && st.delta != 6 {
+				continue
+			}
+			for _, src := range []int{0, 2} {
+				if !emit(c19HiddenCase{Certs: 1, Live: live, Class: "stamped", Src: src, TsAbs: st.abs, TsNow: st.now, TsDelta: st.delta, DelayMs: 7000, Kind: 1}) {
+					return
+				}
+			}
+		}
+		if !emit(c19HiddenCase{Certs: 2, Target: 1, Class: "stamped", TsAbs: st.abs, TsNow: st.now, TsDelta: st.delta}) {
+			return
+		}
+	}
+	// accepted requests (stamped inside the window) replayed from the same / another address at the delays of the replayed-late class
+	for _, d := range []int64{0, -1, -4, -5} {
+		for _, delay := range delays {
+			if delay == 0 {
+				continue
+			}
+			for kind := 0; kind <= 1; kind++ {
+				if !emit(c19HiddenCase{Certs: 1, Class: "stamped", Src: 2 * kind, TsNow: true, TsDelta: d, DelayMs: delay, Kind: kind}) {
+					return
+				}
+			}
+		}
+	}
+	rec.Extra("enumerated", "honest requests per certificate; the five discoverable messages (each / all) x source x live session; acknowledgement under the server's own cookie key; junk: 17 first bytes x 20 lengths (+ hidden-request-shaped); session datagrams unknown/live id x 4 types x 11 lengths, replayed and altered authentic datagrams; wrong KEM key; valid request xor (quick: every 16th offset + all field edges, thorough: every offset) / truncated / extended; delayed and replayed-late at 12 delays from 0 to 1 h; future-stamped at 7 offsets up to 1 year; harness-written requests with a chosen 64-bit time stamp: clock +/- {0,1,4,5,6,7,3600} s, 0, 1, 2^31(-1), 2^32(-1), 2^62, 2^63-1, 2^63, 2^63+1, 2^64-2, 2^64-1, clock +/- 2^b (b in 8,16,31,32,33,48,62,63) with offsets -6..+6, each replayed 7 s later from another address; requests stamped clock-{0,1,4,5} replayed at the 11 delays from the same / another address")
 	rec.Extra("honest_request_bytes", L)
 }
 
@@ -1742,7 +2037,8 @@ func c19HiddenGen(L int) func(t *rapid.T) c19HiddenCase {
 		c.Target = rapid.IntRange(0, c.Certs-1).Draw(t, "target")
 		c.Live = rapid.Bool().Draw(t, "live")
 		c.Class = rapid.SampledFrom([]string{"junk", "junk", "junk", "discoverable", "own-cookie-ack", "session-unknown", "session-live", "session-live",
-			"wrong-kem", "altered", "altered", "altered", "delayed", "delayed", "replayed-late", "replayed-late", "future", "honest"}).Draw(t, "class")
+			"wrong-kem", "altered", "altered", "altered", "delayed", "delayed", "replayed-late", "replayed-late", "future", "honest",
+			"stamped", "stamped", "stamped", "stamped"}).Draw(t, "class")
 		c.Src = rapid.IntRange(0, 2).Draw(t, "src")
 		c.Seed = rapid.Uint64().Draw(t, "seed")
 		delay := func() int64 {
@@ -1797,6 +2093,36 @@ func c19HiddenGen(L int) func(t *rapid.T) c19HiddenCase {
 			c.DelayMs = delay()
 		case "future":
 			c.DelayMs = 1000 + delay()
+		case "stamped":
+			// a landmark of the 64-bit field, optionally riding on the server's clock, plus a small or a wide offset
+			switch rapid.IntRange(0, 4).Draw(t, "stampBase") {
+			case 0: // around the clock itself
+				c.TsNow = true
+			case 1: // a power of two (or its negative) alone or added to the clock
+				c.TsAbs = uint64(1) << uint(rapid.SampledFrom([]int{8, 16, 24, 31, 32, 33, 40, 48, 56, 62, 63, 63, 63}).Draw(t, "stampBit"))
+				if rapid.Bool().Draw(t, "stampNegated") {
+					c.TsAbs = -c.TsAbs
+				}
+				c.TsNow = rapid.Bool().Draw(t, "stampOnClock")
+			case 2: // the ends of the field
+				c.TsAbs = rapid.SampledFrom([]uint64{0, 1, ^uint64(0), 1<<63 - 1, 1 << 63}).Draw(t, "stampEnd")
+			case 3: // anything
+				c.TsAbs = rapid.Uint64().Draw(t, "stampAny")
+				c.TsNow = rapid.Bool().Draw(t, "stampOnClock")
+			case 4: // the clock read as a narrower or signed quantity: high half arbitrary, low half riding on the clock
+				c.TsAbs = uint64(rapid.Uint32().Draw(t, "stampHigh")) << 32
+				c.TsNow = true
+			}
+			switch rapid.IntRange(0, 2).Draw(t, "stampOffset") {
+			case 0:
+				c.TsDelta = int64(rapid.IntRange(-8, 8).Draw(t, "stampDeltaSmall"))
+			case 1:
+				c.TsDelta = int64(rapid.IntRange(-1000000000, 1000000000).Draw(t, "stampDeltaWide"))
+			}
+			if rapid.Bool().Draw(t, "stampReplayed") {
+				c.DelayMs = delay()
+				c.Kind = rapid.IntRange(0, 1).Draw(t, "replayFrom")
+			}
 		}
 		return c
 	}
@@ -1822,7 +2148,7 @@ var (
 // later) are accepted.
 func c19SelfTestCookie(t *testing.T) {
 	c19SelfCookieOnce.Do(func() {
-		for _, c := range []c19CookieCase{{}, {Forge: true}, {Real: true}, {DelayS: 60}} {
+		for _, c := range []c19CookieCase{{}, {Forge: true}, {Real: true}, {DelayS: 60}, {AgeS: 130}, {AgeS: 250, DelayS: 100}, {Real: true, AgeS: 370, DelayS: 60}} {
 			var out c19CookieOut
 			res := vlib.Bubble(t, 60*time.Second, func() { out = c19Cookie(c) })
 			if res.Panic != "" || res.Hung || out.mach != "" || !out.serverAuth || !out.entry {
@@ -1853,6 +2179,25 @@ func c19SelfTestHidden(t *testing.T) int {
 		}
 		if req := c19MakeRequest(t, 7000, c19HiddenClientConfig(0, false)); len(req) != c19SelfLen {
 			c19SelfHiddenErr = fmt.Sprintf("future-stamped request has %d bytes, honest request %d", len(req), c19SelfLen)
+			return
+		}
+		// the harness's copy of the request writer: stamped with the server's own clock (and 5 s before it) it is answered
+		// by the real server, one and two certificates, and has the length of an honest request
+		for _, c := range []c19HiddenCase{{Certs: 1, Class: "stamped", TsNow: true}, {Certs: 2, Target: 1, Class: "stamped", TsNow: true, TsDelta: -int64(HiddenModeTimestampExpiration)}} {
+			var v vlib.Verdict
+			var mach string
+			res := vlib.Bubble(t, 60*time.Second, func() { mach = c19Hidden(c, &v, nil) })
+			answered := false
+			for _, l := range v.Labels {
+				answered = answered || l == "stamped:fresh:first:answered=true"
+			}
+			if res.Panic != "" || res.Hung || mach != "" || !v.OK() || !answered {
+				c19SelfHiddenErr = fmt.Sprintf("a request written by the harness's copy of writePQClientRequestHidden and stamped inside the window (%+v) is not answered exactly once: panic %q hung %v machinery %q violations %v labels %v", c, res.Panic, res.Hung, mach, v.Violations, v.Labels)
+				return
+			}
+		}
+		if req, err := c19StampedRequest(c19HiddenClientConfig(0, false), 0); err != nil || len(req) != c19SelfLen {
+			c19SelfHiddenErr = fmt.Sprintf("harness-written request has %d bytes (err %v), honest request %d", len(req), err, c19SelfLen)
 		}
 	})
 	if c19SelfHiddenErr != "" {
